@@ -618,7 +618,10 @@ fn spawn_async_ao_list_in_task'''),
                 i += 1;
             }'''),
         ('sweep-removes-running-jobs', 'brush-core/src/jobs.rs', 'if self.jobs[i].tasks.is_empty() {\n                completed_jobs.push', 'if !self.jobs[i].tasks.is_empty() {\n                completed_jobs.push'),
-        ('sweep-swap-remove-reorders', 'brush-core/src/jobs.rs', 'completed_jobs.push(self.jobs.remove(i));', 'completed_jobs.push(self.jobs.swap_remove(i));'),
+        ('wait-all-stops-at-first-done-job', 'brush-core/src/jobs.rs', '            job.wait().await?;\n        }\n\n        Ok(self.sweep_completed_jobs())', '            if matches!(job.state, JobState::Done) {\n                break;\n            }\n            job.wait().await?;\n        }\n\n        Ok(self.sweep_completed_jobs())'),
+        ('wait-all-does-not-wait', 'brush-core/src/jobs.rs', '        for job in &mut self.jobs {\n            job.wait().await?;\n        }\n\n        Ok(self.sweep_completed_jobs())', '        Ok(self.sweep_completed_jobs())'),
+        ('previous-current-not-demoted', 'brush-core/src/jobs.rs', '                j.annotation = JobAnnotation::Previous;\n', ''),
+        ('id-from-last-and-poll-reorders', 'brush-core/src/jobs.rs', [('let job = self.jobs.remove(i);', 'let job = self.jobs.swap_remove(i);'), ('            if j.id >= id {\n                id = j.id + 1;', '            if j.id >= id || true {\n                id = j.id + 1;')]),
         ('poll-drops-done-job', 'brush-core/src/jobs.rs', '                results.push((self.jobs.remove(i), Ok(ExecutionResult::success())));', '                self.jobs.remove(i);'),
     ],
     'U19': [
